@@ -484,6 +484,14 @@ func (tb *TB) Arith(op token.Token, a, b *Term, signed bool) *Term {
 			if isZero(b) {
 				return a
 			}
+			// constants to the right, and (x + c1) + c2 -> x + (c1+c2): index arithmetic such as
+			// (i + 1) - 1 then collapses back to i
+			if a.IsConst() && !b.IsConst() {
+				a, b = b, a
+			}
+			if b.IsConst() && a.Op == "bvadd" && a.Args[1].IsConst() {
+				return tb.Arith(token.ADD, a.Args[0], tb.BVC(s.W, a.Args[1].U+b.U), signed)
+			}
 			return tb.mk("bvadd", s, "", a, b)
 		case token.SUB:
 			if isZero(b) {
@@ -491,6 +499,9 @@ func (tb *TB) Arith(op token.Token, a, b *Term, signed bool) *Term {
 			}
 			if a == b {
 				return tb.BVC(s.W, 0)
+			}
+			if b.IsConst() { // x - c  ->  x + (-c)
+				return tb.Arith(token.ADD, a, tb.BVC(s.W, -b.U), signed)
 			}
 			return tb.mk("bvsub", s, "", a, b)
 		case token.MUL:
